@@ -228,6 +228,7 @@ func (f *Frame) execAlloc(cur *blockCur, x *ssa.Alloc) {
 		p.ArrElem = at.Elem()
 	}
 	cur.st = c.store(cur.st, p, c.so.zero(t))
+	f.ghostInitAlloc(cur, t, ref)
 	f.setVal(x, Val{T: x.Type(), P: p})
 	if !escapes(x) {
 		c.localObjs = append(c.localObjs, localObj{ref: ref, keys: c.heapKeysOfPtr(p)})
